@@ -21,7 +21,7 @@ def run(ctx, rep):
     exceptions.rule_catchable_classes(ctx, rep, "C16-R3", only_pred=_in_family, floor=1)
     textparse.rule_negative_positions(ctx, rep, "C16-R4", only=_in_family, floor=3)
     textparse.rule_sibling_index_readers(ctx, rep, "C16-R5")
-    textparse.rule_script_whitespace(ctx, rep, "C16-R6", only=_in_family, pattern_modules=("vm",))
+    textparse.rule_script_whitespace(ctx, rep, "C16-R6", only=_in_family)
     optargs.rule_missing_is_undefined(ctx, rep, "C16-R7", lambda f: _in_family(f.qual), "the String methods and constructor", floor=5)
     builtins.rule_template_single_pass(ctx, rep, "C16-R8")
     optargs.rule_integer_argument_consulted(ctx, rep, "C16-R9", lambda f: _in_family(f.qual), "the String methods", floor=3)
